@@ -367,7 +367,19 @@ def composition_table(ctx, rule):
     nm = repo.mod("normalize_url")
     site = nm.site(nm.func("normalize_url").node)
     n = 0
-    for u in COMPOSE_CELLS:
+    cells = list(COMPOSE_CELLS)
+    if ctx.tier == "thorough":
+        # the product of the spelling classes (without the escaped-delimiter class, whose three representatives are above)
+        hosts = ["x.com", "WWW.X.com", "xn--caf-dma.fr", "caf\u00e9.fr", "amp-x.com", "xn--amp--epa.com", "amp-xn--caf-dma.fr", "m.x.co.uk", "x.com:80", "x.com:8080", "u:p@x.com", "fr.x.com"]
+        paths = ["", "/", "/a/../b", "/a%2Fb", "/%61", "/index.html", "/Index.html", "/%69ndex.html", "/a/amp/", "/a.amp", "/a%2Eamp", "/a b", "/a%20b", "//a", "/a/./", "/%7Ea", "/caf%C3%A9", "/caf%E9", "/a;b"]
+        queries = ["?", "?b=2&a=1", "?a=1&amp;b=2", "?a=1&%61mp;b=2", "?a=1&amp%3Bb=2", "?utm_source=x&a=1", "?utm%5Fsource=x&a=1", "?%75tm_source=x", "?redirect%5Fto=http%3A%2F%2Fb.com", "?url=HTTP%3A%2F%2Fb.com",
+                   "?u=http%3A%2F%2Fb.com%2F%3Fa%3D1", "?a=b=c", "?a=%3D", "?a=1%26b=2", "?a", "?a=", "?A=1&a=2", "?q=a+b", "?q=a%20b", "?q=a b", "?fbclid=1", "?Fbclid=1", "?amp=1&a=2", "?a=2&amp", "?%61mp=1&a=2", "?gclid=1#x"]
+        frags = ["#", "#f", "#/route", "#!/r", "#a%20b", "#%66"]
+        for h in hosts:
+            cells += ["http://" + h + p for p in paths] + ["http://" + h + "/p" + q for q in queries] + ["http://" + h + q for q in queries] + ["http://" + h + "/p" + f for f in frags] + ["http://" + h + "/p?a=1" + f for f in frags]
+        seen = set()
+        cells = [c for c in cells if not (c in seen or seen.add(c))]
+    for u in cells:
         try:
             cu = TB.call(repo, "canonicalize_url", "canonicalize_url", u)
             if not isinstance(cu, str) or cu.startswith("raises "):
@@ -383,4 +395,4 @@ def composition_table(ctx, rule):
                            sample="%r -> %r" % (u, a) if pa and "redirect" in u else None)
         except Unknown as e:
             ctx.undecided(rule, "%r: %s" % (u, e))
-    ctx.require_instances(rule, n, 4 * len(COMPOSE_CELLS) - 8, "(function, url, platform_aware) cells")
+    ctx.require_instances(rule, n, 4 * len(cells) - 8 - len(cells) // 20, "(function, url, platform_aware) cells")
